@@ -89,6 +89,7 @@ func main() {
 		"refage (the independent implementation) is the specification oracle; it is validated against the 114 CCTV vectors at start-up",
 		"x/crypto chacha20poly1305 and scrypt, crypto/{sha256,hmac,ecdh,rsa} and math/big are trusted primitives",
 		"ssh-rsa stanzas are opened with the private key (and their OAEP seed traced to the tape) instead of being reproduced",
+		"retaining-identity stage: the file key slice an Identity returns stays the identity's; the library reads it and an identity may hand the same slice out again",
 	}
 	r.MinEvals, r.MinDistinct = 300, 200
 	if n, err := refage.SelfCheck(); err != nil {
@@ -99,6 +100,7 @@ func main() {
 	}
 	encryptSide(r)
 	corpusSide(r)
+	retainedKeysSide(r)
 	vectorSide(r)
 	referenceFilesSide(r)
 	collidingValuesSide(r)
